@@ -339,7 +339,7 @@ fn run_evsys<D: KeyDev>(ctx: &mut Ctx, label: &str, check_mods: bool, check_ret:
         check_ret,
         _d: std::marker::PhantomData,
     });
-    let (g, sr, errs) = explore_both(sys.clone(), false);
+    let (g, sr, errs) = explore_both(sys.clone(), false, 100_000);
     for e in errs {
         ctx.machinery(&format!("{}: {}", label, e));
     }
@@ -386,49 +386,48 @@ fn c04_history_tree(ctx: &mut Ctx, depth: usize) {
     alpha.push((KeyCode::CapsLock, KeyState::SingleShot));
     alpha.push((KeyCode::LShift, KeyState::SingleShot));
     let n_alpha = alpha.len();
-    let results = par_chunks(n_alpha, |first| {
-        let mut n = 0u64;
-        let mut bads: Vec<(Vec<(KeyCode, KeyState)>, u16, u16)> = vec![];
-        fn rec(
-            kb: &Keyboard<Echo, ScancodeSet2>,
-            h: &mut Vec<(KeyCode, KeyState)>,
-            alpha: &[(KeyCode, KeyState)],
-            depth: usize,
-            n: &mut u64,
-            bads: &mut Vec<(Vec<(KeyCode, KeyState)>, u16, u16)>,
-        ) {
-            for (k, s) in alpha {
-                let mut k2 = kb.clone();
-                let _ = k2.process_keyevent(KeyEvent::new(*k, *s));
-                h.push((*k, *s));
-                *n += 1;
-                let want = rmods_history(h);
-                let got = bits_from_mods(k2.get_modifiers());
-                if want != got && bads.len() < 16 {
-                    bads.push((h.clone(), want, got));
-                }
-                if h.len() < depth {
-                    rec(&k2, h, alpha, depth, n, bads);
-                }
-                h.pop();
+    type HB = (Vec<(KeyCode, KeyState)>, u16, u16);
+    fn rec(kb: &Keyboard<Echo, ScancodeSet2>, h: &mut Vec<(KeyCode, KeyState)>, alpha: &[(KeyCode, KeyState)], only: Option<usize>, depth: usize, guard: bool, n: &mut u64, bads: &mut Vec<HB>) {
+        for (i, (k, s)) in alpha.iter().enumerate() {
+            if only.map_or(false, |o| o != i) {
+                continue;
             }
-        }
-        let _ = catch_unwind(AssertUnwindSafe(|| {
-            let mut kb = Keyboard::new(ScancodeSet2::new(), Echo(0), HandleControl::Ignore);
-            let (k, s) = alpha[first];
-            let _ = kb.process_keyevent(KeyEvent::new(k, s));
-            let mut h = vec![(k, s)];
-            n += 1;
-            let want = rmods_history(&h);
-            let got = bits_from_mods(kb.get_modifiers());
-            if want != got {
+            let mut k2 = kb.clone();
+            let ok = if guard {
+                catch_unwind(AssertUnwindSafe(|| {
+                    let _ = k2.process_keyevent(KeyEvent::new(*k, *s));
+                }))
+                .is_ok()
+            } else {
+                let _ = k2.process_keyevent(KeyEvent::new(*k, *s));
+                true
+            };
+            h.push((*k, *s));
+            *n += 1;
+            let want = rmods_history(h);
+            let got = if ok { bits_from_mods(k2.get_modifiers()) } else { 0xFFFF };
+            if want != got && bads.len() < 16 {
                 bads.push((h.clone(), want, got));
             }
-            if depth > 1 {
-                rec(&kb, &mut h, &alpha, depth, &mut n, &mut bads);
+            if ok && h.len() < depth {
+                rec(&k2, h, alpha, None, depth, guard, n, bads);
             }
-        }));
-        (n, bads)
+            h.pop();
+        }
+    }
+    let results = par_chunks(n_alpha, |first| {
+        let run = |guard: bool| {
+            let mut n = 0u64;
+            let mut bads: Vec<HB> = vec![];
+            let kb = Keyboard::new(ScancodeSet2::new(), Echo(0), HandleControl::Ignore);
+            let mut h = vec![];
+            rec(&kb, &mut h, &alpha, Some(first), depth, guard, &mut n, &mut bads);
+            (n, bads)
+        };
+        match catch_unwind(AssertUnwindSafe(|| run(false))) {
+            Ok(r) => r,
+            Err(_) => run(true),
+        }
     });
     let mut total = 0;
     for (n, bads) in results {
@@ -442,7 +441,7 @@ fn c04_history_tree(ctx: &mut Ctx, depth: usize) {
             let before = rmods_history(&h[..h.len() - 1]);
             ctx.violation(
                 &format!("mods/getter/{}:{}/from:{}", key_name(lk), state_name(ls), before),
-                &format!("{}: after the event history {:?} get_modifiers() must report [{}] but reports [{}]", comp, h, mods_text(want), mods_text(got)),
+                &format!("{}: after the event history {:?} get_modifiers() must report [{}] but reports [{}]", comp, h, mods_text(want), if got == 0xFFFF { "PANIC".to_string() } else { mods_text(got) }),
                 Replay::one(comp, ops, &format!("mods={}", mods_text(want)), Some(obs)),
             );
         }
